@@ -2,7 +2,11 @@
 (***************************************************************************)
 (* Validates traces recorded from the real TokenBucketLimiter.             *)
 (* Input: ndjson, one trace per line:                                      *)
-(*   {id, tppNum, tppDen, period, init, steps: [{at, waitN, offgrid}]}     *)
+(*   {id, tppNum, tppDen, period, init,                                    *)
+(*    steps: [{at, waitN, offgrid, cancelled, tokens}]}                     *)
+(* cancelled: the caller used wait() and was cancelled while sleeping (its  *)
+(* token is spent, it never sends); tokens: what the `tokens` property      *)
+(* reported just before the call (-1 = not read; reading has no effect).    *)
 (* `at` in ticks, `waitN` the returned wait in 1/TppNum ticks (projection  *)
 (* harness/eng_tokenbucket.py), offgrid = TRUE when the float wait was not *)
 (* within tolerance of that grid.  Total: never blocks, names the failing  *)
@@ -29,12 +33,19 @@ Step ==
             same  == l > 1 /\ tr.steps[l-1].at = ev.at
             k     == IF same THEN bk + 1 ELSE 1
             a     == IF same THEN ba ELSE r.avail
-            h2    == Append(hist, [at |-> ev.at, waitN |-> ev.waitN])
-            bad   == (IF ev.offgrid THEN {"Step_Consume_Grid"} ELSE {})
+            h2    == IF ev.cancelled THEN hist ELSE Append(hist, [at |-> ev.at, waitN |-> ev.waitN])
+            K     == TB(tid)!K
+            q     == IF st.tok >= 0 THEN st.tok \div K ELSE 0
+            \* the property truncates a float: an exact whole number of tokens may be reported one short
+            tokOK == ev.tokens < 0 \/ ev.tokens = q \/ (st.tok > 0 /\ st.tok % K = 0 /\ ev.tokens = q - 1)
+            bad   == IF ev.cancelled THEN (IF tokOK THEN {} ELSE {"Obs_C20_Tokens"})
+                     ELSE
+                     (IF ev.offgrid THEN {"Step_Consume_Grid"} ELSE {})
                      \cup (IF r.waitN # ev.waitN THEN {"Step_Consume"} ELSE {})
                      \cup (IF ev.waitN # TB(tid)!BurstWaitN(k, a) THEN {"Inv_C20_BurstExact"} ELSE {})
                      \cup (IF ev.waitN < 0 THEN {"Inv_C20_NonNegativeWait"} ELSE {})
                      \cup (IF ~TB(tid)!WindowBound(h2) THEN {"Inv_C20_WindowBound"} ELSE {})
+                     \cup (IF tokOK THEN {} ELSE {"Obs_C20_Tokens"})
         IN /\ st' = r.st /\ l' = l + 1 /\ tid' = tid /\ bk' = k /\ ba' = a /\ hist' = h2
            /\ viol' = viol \cup {<<l, c>> : c \in bad}
      ELSE /\ PrintT("@@" \o ToJson([id |-> tr.id, steps |-> Len(tr.steps),
